@@ -383,6 +383,68 @@ theorem scan_plain_decimal_terminating (sep th : Char) (hs : SepOK sep th) (ip :
   obtain ⟨e, he⟩ := hpre
   simp [parseNumber, he, hp]
 
+/-! ### e-notation (bases up to 10): `I e E`, `I e+E`, `I e-E` -/
+
+theorem e_facts : ∀ b : Fin 11, digitOf 'e' b.val = none := by decide
+theorem e_sep : isSep 'e' ',' = false ∧ isSep 'e' '.' = false ∧ ('e' == '.') = false ∧ ('e' == ',') = false := by decide
+theorem digit10_isDigit : ∀ d : Fin 10, (digitChar d.val).isDigit = true ∧ digitChar d.val ≠ '-' ∧ digitChar d.val ≠ '+' := by decide
+
+theorem diceAfter_e (b : Nat) (f : Option (List Nat)) (tl : List Char) : diceAfter b f ('e' :: tl) = false := by
+  simp [diceAfter]
+
+theorem expSign_digit (c : Char) (tl : List Char) (h1 : c ≠ '-') (h2 : c ≠ '+') : expSign (c :: tl) = (false, c :: tl) := by
+  unfold expSign
+  split
+  · rename_i r heq; injection heq with h _; exact absurd h h1
+  · rename_i r heq; injection heq with h _; exact absurd h h2
+  · rfl
+
+/-- `expPart` on `e`, an optional sign, and a digit run -/
+theorem expPart_scan (b : Nat) (hb2 : 2 ≤ b) (hb : b ≤ 10) (th : Char) (hth : th = ',' ∨ th = '.') (sign : Option Bool)
+    (d : Nat) (ds : List Nat) (hds : ∀ x ∈ d :: ds, x < b) :
+    expPart b th ('e' :: ((match sign with | none => [] | some true => ['-'] | some false => ['+']) ++ (d :: ds).map digitChar)) =
+      .ok (some (sign == some true, d :: ds), []) := by
+  have hd : d < b := hds d (by simp)
+  obtain ⟨hdig, hnm, hnp⟩ := digit10_isDigit ⟨d, by omega⟩
+  have hpi := parseInteger_scan true b (by omega) th hth d ds hds [] (Or.inl rfl)
+  simp only [List.append_nil, List.map_cons] at hpi
+  unfold expPart
+  simp only [hb, if_true, List.map_cons]
+  cases sign with
+  | none =>
+    simp only [List.nil_append, beq_self_eq_true, Bool.true_or, if_true, hdig, expSign_digit _ _ hnm hnp, hpi]
+    rfl
+  | some sg =>
+    cases sg with
+    | true => simp [expSign, hpi]
+    | false => simp [expSign, hpi]
+
+/-- **the scanner on an integer with an exponent** (bases up to 10) -/
+theorem parseBasic_exponent (b : Nat) (hb2 : 2 ≤ b) (hb : b ≤ 10) (sep th : Char) (hs : SepOK sep th) (n : Nat) (sign : Option Bool)
+    (d : Nat) (ds : List Nat) (hds : ∀ x ∈ d :: ds, x < b) :
+    parseBasic b sep th ((natDigits b n).map digitChar ++
+        'e' :: ((match sign with | none => [] | some true => ['-'] | some false => ['+']) ++ (d :: ds).map digitChar)) =
+      .ok (.num ⟨b, natDigits b n, none, none, some (sign == some true, d :: ds)⟩ []) := by
+  obtain ⟨i0, it, hdt⟩ := natDigits_cons b n hb2
+  have hlt := natDigits_lt b n hb2
+  rw [hdt] at hlt ⊢
+  have hth : th = ',' ∨ th = '.' := by rcases hs with ⟨_, h⟩ | ⟨_, h⟩; exact Or.inl h; exact Or.inr h
+  have hi0 : i0 < b := hlt i0 (by simp)
+  have he : digitOf 'e' b = none := e_facts ⟨b, by omega⟩
+  have hes : isSep 'e' th = false := by rcases hth with rfl | rfl; exact e_sep.1; exact e_sep.2.1
+  have hI := parseInteger_scan true b (by omega) th hth i0 it hlt
+    ('e' :: ((match sign with | none => [] | some true => ['-'] | some false => ['+']) ++ (d :: ds).map digitChar))
+    (Or.inr ⟨'e', _, rfl, he, hes⟩)
+  obtain ⟨_, p2, p3, _, _⟩ := digit_plain ⟨i0, by omega⟩
+  have hnosep : (digitChar i0 == sep) = false := by rcases hs with ⟨h, _⟩ | ⟨h, _⟩ <;> rw [h] <;> assumption
+  have hesep : ('e' == sep) = false := by rcases hs with ⟨h, _⟩ | ⟨h, _⟩ <;> rw [h]; exact e_sep.2.2.1; exact e_sep.2.2.2
+  have hE := expPart_scan b hb2 hb th hth sign d ds hds
+  simp only [List.map_cons, List.cons_append] at hI ⊢
+  simp only [parseBasic, diceNoCount_digit b i0 hi0 (by omega), hnosep, hI, fracPart, hesep, diceAfter_e, Bool.false_eq_true, if_false]
+  simp only [List.map_cons] at hE
+  rw [hE]
+  simp [supFollows_nil]
+
 /-! ### `n#` prefixes: every base 2..36 -/
 
 theorem base_text : ∀ b : Fin 37, 2 ≤ b.val → (toString b.val).toList = (natDigits 10 b.val).map digitChar := by decide
